@@ -64,7 +64,7 @@ var loadSem = make(chan struct{}, 8)
 // full syntax and type information for the whole import graph that lies inside
 // the repository (dependencies outside it are loaded from export data / source
 // as go/packages decides; only their types are used).
-func LoadModule(dir, goarch string) (*Module, error) {
+func LoadModule(dir, goarch string, overlay map[string][]byte) (*Module, error) {
 	loadSem <- struct{}{}
 	defer func() { <-loadSem }()
 	abs := filepath.Join(RepoRoot, dir)
@@ -76,8 +76,9 @@ func LoadModule(dir, goarch string) (*Module, error) {
 		Mode:  packages.LoadAllSyntax,
 		Dir:   abs,
 		Env:   loaderEnv(goarch),
-		Fset:  fset,
-		Tests: false,
+		Fset:    fset,
+		Tests:   false,
+		Overlay: overlay,
 	}
 	pkgs, err := packages.Load(cfg, "./...")
 	if err != nil {
